@@ -76,6 +76,7 @@ def run_scenario(name: str, seed: int, steps: int, blue: str = "random", tweak_i
     samples: Dict[str, List[tuple]] = {n: [(a.current_kill_chain_stage.name, a.next_execution_timestep, a.actions_concluded)]
                                        for n, a in taps.items()}
     n_steps = 0
+    env_error = None
     # blue's random actions are drawn only from action-map entries whose action name is registered: the shipped
     # uc7_config_tap003.yaml lists `router-acl-addrule` (unregistered) and the environment raises KeyError on it —
     # a scenario-file defect outside C19 (reported in design_notes/C19.md for C01/C20).
@@ -86,13 +87,17 @@ def run_scenario(name: str, seed: int, steps: int, blue: str = "random", tweak_i
     brng = np.random.default_rng(seed)
     for _ in range(steps):
         act = int(valid[brng.integers(len(valid))]) if blue == "random" else 0
-        _, _, term, trunc, _ = env.step(act)
+        try:
+            _, _, term, trunc, _ = env.step(act)
+        except Exception as e:      # the environment itself raised (not an agent's get_action): outside C19, see design note
+            env_error = f"{type(e).__name__}: {str(e).splitlines()[0][:160]}"
+            break
         n_steps += 1
         for n, a in taps.items():
             samples[n].append((a.current_kill_chain_stage.name, a.next_execution_timestep, a.actions_concluded))
         if term or trunc:
             break
-    viol, stats = [], {"steps": n_steps, "agents": {}, "blue_actions_unregistered": stats_invalid}
+    viol, stats = [], {"steps": n_steps, "agents": {}, "blue_actions_unregistered": stats_invalid, "env_error": env_error}
     for n, a in agents.items():
         hist = a.history
         acts = [(h.timestep, h.action, h.parameters, h.response.status) for h in hist]
@@ -212,6 +217,10 @@ def run_all(ctx):
         ctx.cov["traces_validated_against_impl"] += 1
         ctx.count(f"scenario:{name}:{tweak or 'shipped'}:{blue}")
         ctx.count("scenario:steps", res["stats"]["steps"])
+        if res["stats"]["env_error"]:
+            ctx.count("scenario:environment-raised-mid-episode (outside C19)")
+            ctx.notes.append(f"{name}/{tweak or 'shipped'}/blue={blue}/seed={seed}: env.step raised after {res['stats']['steps']} steps: "
+                             f"{res['stats']['env_error']} — oracles evaluated on the history up to that step")
         for n, st in res["stats"]["agents"].items():
             ctx.count(f"scenario:agent-kind:{st['kind']}")
             if "failed" in st:
